@@ -114,6 +114,10 @@ class PassDidNotTerminate(Exception):
     pass
 
 
+class LayoutMixUp(Exception):
+    pass
+
+
 def capped_next(cap):
     """CatalogForecast.__next__ with a call counter: an operation that advances the forecast more than `cap` times is cut off
     (a pass that never ends is decided by count, not by time)"""
@@ -159,7 +163,14 @@ def run_op(W, fc, op):
         er = fc.get_expected_rates(verbose=W.verbose)
         return None if er is None else numpy.array(er.data, dtype=float)
     if op == "spatial_counts":
-        return numpy.array(fc.spatial_counts(), dtype=float)
+        flat = numpy.array(fc.spatial_counts(), dtype=float)
+        # the same marginal in both layouts, in either order of asking: the flat vector per cell and the map on the bounding box
+        grid = numpy.array(fc.spatial_counts(cartesian=True), dtype=float)
+        flat2 = numpy.array(fc.spatial_counts(), dtype=float)
+        if grid.ndim != 2 or flat2.shape != flat.shape or not numpy.array_equal(flat, flat2) or \
+                not numpy.isclose(numpy.nansum(grid), flat.sum(), rtol=1e-12, atol=0):
+            raise LayoutMixUp("flat %s, cartesian %s, flat again %s" % (flat.shape, grid.shape, flat2.shape))
+        return flat
     if op == "magnitude_counts":
         return numpy.array(fc.magnitude_counts(), dtype=float)
     f = {"n_test": CE.number_test, "s_test": CE.spatial_test, "m_test": CE.magnitude_test, "pl_test": CE.pseudolikelihood_test}[op]
@@ -190,6 +201,10 @@ class Session:
         from csep.core.forecasts import CatalogForecast
         with mock.patch.object(CatalogForecast, "__next__", capped_next(200 * (W.n + 1))):   # an operation makes a few passes
             o = call(run_op, W, fc, op)
+        if not o.ok and isinstance(o.exc, LayoutMixUp):
+            ctx.violation("spatial_counts_layouts_mixed_up", {"history": hist, "why": str(o.exc)}, dict(W.case, ops=hist))
+            self.dead = True
+            return
         if not o.ok and isinstance(o.exc, PassDidNotTerminate):
             ctx.violation("pass_does_not_terminate", {"history": hist, "op": op, "why": str(o.exc)}, dict(W.case, ops=hist))
             self.dead = True
